@@ -58,7 +58,10 @@ def _log_session(ctx, driver, spec, new, res):
         "finish_exc": bool(res.get("finish_exc")), "main_exc": bool(res.get("main_exc")),
         "categories": res.get("categories"), "rec": res.get("rec"), "asked": res.get("asked"),
         "tests": {k: [v.get("setup"), v.get("call"), v.get("teardown")] for k, v in (res.get("tests") or {}).items()} if driver == "plugin" else res.get("tests"),
-        "trace": [[t[1], t[2]] for t in (res.get("trace") or [])],
+        # reads are logged as a multiset: the library iterates a *set* of file names (files_with_snapshots), so their order
+        # follows the interpreter's hash seed (the same holds for the unlink calls over the set of unused externals); other mutating calls are logged in order
+        "reads": sorted([t[1], t[2]] for t in (res.get("trace") or []) if t[1] in ("read_text", "read_bytes", "exists", "glob", "iterdir", "unlink")),
+        "trace": [[t[1], t[2]] for t in (res.get("trace") or []) if t[1] not in ("read_text", "read_bytes", "exists", "glob", "iterdir", "unlink")],
         "files": {k: sha(v)[:12] for k, v in sorted(new.items()) if k != "simlib.py"},
     })
 
